@@ -18,6 +18,14 @@ class ModelGap(Exception):
     """Something outside this model (inconclusive; never a verdict)."""
 
 
+class ILUninit(ModelGap):
+    """A local is read on a path on which nothing has written it yet."""
+
+    def __init__(self, name):
+        ModelGap.__init__(self, f"read of never-set local {name}")
+        self.name = name
+
+
 ALIAS64 = ("HEX_REG_ALIAS_UPCYCLE", "HEX_REG_ALIAS_PKTCOUNT", "HEX_REG_ALIAS_UTIMER")
 CLASS_WIDTH = {"HEX_REG_CLASS_PRED_REGS": 8, "HEX_REG_CLASS_INT_REGS": 32, "HEX_REG_CLASS_CTR_REGS": 32,
                "HEX_REG_CLASS_MOD_REGS": 32, "HEX_REG_CLASS_DOUBLE_REGS": 64, "HEX_REG_CLASS_CTR_REGS64": 64,
@@ -426,7 +434,9 @@ class ILExec:
         binds = {}
         for (pty, pn), arg in zip(params, args):
             if "RzILOpPure" in pty:
-                binds[pn] = ("pureval", self.pure(arg, st, pc, cenv, {}))
+                # RzIL semantics: the argument is an expression *tree* spliced into the callee's effect and
+                # evaluated where the callee uses it (by name), against the state at that point
+                binds[pn] = ("pureclosure", (arg, cenv))
             elif "HexOp" in pty:
                 binds[pn] = ("opval", self.op_ident(arg, cenv))
             else:
@@ -471,6 +481,8 @@ class ILExec:
             kind, term = cenv[t[1]]
             if kind == "pureval":
                 return term
+            if kind == "pureclosure":
+                return self.pure(term[0], st, pc, term[1], {})
             if kind != "pure":
                 raise ILSortError(f"{t[1]} used as pure but is {kind}")
             return self.pure(term, st, pc, cenv, lets)
@@ -520,8 +532,7 @@ class ILExec:
         if n == "VARL":
             name = a[0][1]
             if name not in st.locals:
-                st.obligations.append((pc, f"local {name} read but never written on this path"))
-                raise ModelGap(f"read of never-set local {name}")
+                raise ILUninit(name)
             st.obligations.append((D.band(pc, D.bnot(st.linit[name])), f"local {name} read before written"))
             return st.locals[name]
         if n == "VARLP":
